@@ -6,7 +6,7 @@ BOUNDS = {
     "quick": "tensor-owned trees of skeleton 0/1/2/3-fiber, [1,1], [2,1], [1,0], [] and depth-3 [[1]] with symbolic coordinates and values; one read phase "
              "(getPayload full/prefix/caller default, getPosition) at a symbolic point, one reference write (<<= or +=) at a second symbolic point, "
              "read-back at both; every start_pos 0..n on 1-level fibers; rank-0 tensor",
-    "thorough": "adds [2,2], [[1,1]], [[1],[1]] depth-3 skeletons, 4-fibers for start_pos, two successive reference writes",
+    "thorough": "adds [2,2], [[1,1]] depth-3 skeletons ([[1],[1]] for getPositionRef only), 4-fibers for start_pos, two successive reference writes",
 }
 OUTSIDE = "trace= side effects (C16), lazy fibers (rejected by assertion), unordered fibers"
 ASSUMPTIONS = ["A1 integers only", "A4 points no longer than the tree depth"]
@@ -265,6 +265,8 @@ def obligations(tier):
         trees += [[2, 2], [0, 1], [[1, 1]], [[1], [1]], [[0]]]
     for tree in trees:
         for kind in ("assign", "add", "posref"):
+            if tree == [[1], [1]] and kind != "posref":
+                continue       # 4800+ paths, does not finish inside the thorough budget: outside the claim (the [[1,1]] and [[1]] skeletons cover depth 3)
             obs.append(_mk(tree, kind))
     for tree in ([1, 2, [1, 1]] if q else [1, 2, 3, [1, 1], [2, 1], [1, 0]]):
         obs.append(_mk(tree, "two", fn="rw2"))
